@@ -148,6 +148,13 @@ def h_spans_setops(na: int, a0: int, a1: int, a2: int, a3: int, nb: int, b0: int
         return "invariant broken"
     if _member(r._spans, p) != want:
         return "set operation wrong at probe"
+    # the result must be a value of its own: a later in-place edit of it must not change an operand
+    if r is oa or r is ob or r._spans is oa._spans or r._spans is ob._spans:
+        return "result aliases an operand"
+    q = p if p >= 0 else 0
+    r.add(q, 1)
+    if oa._spans != A or ob._spans != Bq:
+        return "editing the result changed an operand"
     return True
 
 
